@@ -296,7 +296,7 @@ func main() {
 		mu.Unlock()
 		extra := map[string]interface{}{
 			"depth": depth, "signatures": len(sigs), "values": nvals,
-			"boundary": map[string]interface{}{"documented_cap": sizeCap, "entries": boundaryCounts, "data_executed": nboundary, "data": boundaryData},
+			"boundary":                  map[string]interface{}{"documented_cap": sizeCap, "entries": boundaryCounts, "data_executed": nboundary, "data": boundaryData},
 			"go_type_vs_signature_Type": map[string]interface{}{"compared_m_and_o_free_signatures": typeChecked, "different": typeMismatch, "first": mm},
 		}
 		assumptions := []string{
